@@ -1,5 +1,14 @@
-//! Harness-side HELPERS for src/hpack/decoder.rs needed by the connection-level SETTINGS contracts
-//! (observer only; the hpack work package may add contracts to this file).
+//! Contracts for src/hpack/decoder.rs — property C11 ("HPACK decoding agrees with RFC 7541 on every
+//! input, however split") and the decoder half of C10.
+//!
+//! The oracles in this file are written from RFC 7541, not from the code:
+//!   * `rfc_decode_int`      §5.1  integer representation (pseudo code of the RFC, in u64)
+//!   * `rfc_representation`  §6    first-octet patterns
+//!   * `RefTable`            §4.1–§4.4 dynamic table size / eviction / §2.3.3 index space
+//!   * `rfc_block`           §4.2 + §6.1 + §6.3 for the sub-language {indexed field, size update}
+//!                           (kept for a future block-level harness; `Decoder::decode` on a non-empty
+//!                           Cursor<&mut BytesMut> is currently intractable, see the end of this file)
+//!   * `RFC_STATIC`          Appendix A
 #![allow(dead_code, unused_imports)]
 use super::*;
 
@@ -12,3 +21,859 @@ impl Decoder {
     }
 }
 // ---- connlevel helpers end
+
+
+// ------------------------------------------------------------------ RFC 7541 §5.1
+
+pub(crate) enum RefInt {
+    /// (value, octets consumed)
+    Value(u64, usize),
+    /// the buffer ends before an octet with the continuation flag clear
+    NeedMore,
+}
+
+/// RFC 7541 §5.1 "decode I from the next N bits ..." on `bytes[..n]`, `1 <= p <= 8`, `n <= 8`
+/// (so that the value fits u64: 255 + 7 * 7 bits).
+pub(crate) fn rfc_decode_int(bytes: &[u8], n: usize, p: u8) -> RefInt {
+    if n == 0 {
+        return RefInt::NeedMore;
+    }
+    let full: u64 = (1u64 << p) - 1;
+    let mut i: u64 = (bytes[0] as u64) & full;
+    if i < full {
+        return RefInt::Value(i, 1);
+    }
+    let mut m: u32 = 0;
+    let mut k: usize = 1;
+    while k < n {
+        let b = bytes[k];
+        i += ((b & 127) as u64) << m;
+        m += 7;
+        k += 1;
+        if b & 128 == 0 {
+            return RefInt::Value(i, k);
+        }
+    }
+    RefInt::NeedMore
+}
+
+/// The real `decode_int` on a byte slice, for harnesses of sibling modules (encoder round trip):
+/// (result, octets consumed).
+pub(crate) fn vk_decode_int(bytes: &[u8], p: u8) -> (Result<usize, DecoderError>, usize) {
+    let mut b: &[u8] = bytes;
+    let r = decode_int(&mut b, p);
+    (r, bytes.len() - b.len())
+}
+
+/// h2's documented implementation limit (§5.1 allows one): the prefix octet plus at most this many
+/// continuation octets.  255 + (2^28 - 1) < 2^32, so a conforming result fits `usize` on every target.
+pub(crate) const MAX_CONT_OCTETS: usize = 4;
+
+// ------------------------------------------------------------------ RFC 7541 §6
+
+/// 0 indexed (§6.1), 1 literal with incremental indexing (§6.2.1), 2 literal without indexing
+/// (§6.2.2), 3 literal never indexed (§6.2.3), 4 dynamic table size update (§6.3)
+pub(crate) fn rfc_representation(b: u8) -> u8 {
+    if b >> 7 == 0b1 {
+        0
+    } else if b >> 6 == 0b01 {
+        1
+    } else if b >> 5 == 0b001 {
+        4
+    } else if b >> 4 == 0b0001 {
+        3
+    } else {
+        2 // 0000xxxx
+    }
+}
+
+pub(crate) fn repr_code(r: &Representation) -> u8 {
+    match r {
+        Representation::Indexed => 0,
+        Representation::LiteralWithIndexing => 1,
+        Representation::LiteralWithoutIndexing => 2,
+        Representation::LiteralNeverIndexed => 3,
+        Representation::SizeUpdate => 4,
+    }
+}
+
+// ------------------------------------------------------------------ dynamic table model (§4)
+
+/// Table entries for the harnesses.  Only `Header::len()` matters to the table, so the entries are the
+/// cheapest headers to build, clone and drop under CBMC (no `Bytes` inside: dropping a `Bytes` that was
+/// read back from the VecDeque makes CBMC explore every vtable): sizes 42, 43, 44, 45, 46 (RFC 7541 §4.1:
+/// name + value + 32).
+pub(crate) const MAX_K: usize = 4;
+
+pub(crate) fn mk_entry(k: usize) -> Header {
+    match k {
+        0 => Header::Status(StatusCode::OK),      // 7 + 3 + 32
+        1 => Header::Method(Method::POST),        // 7 + 4 + 32
+        2 => Header::Method(Method::PATCH),       // 7 + 5 + 32
+        3 => Header::Method(Method::DELETE),      // 7 + 6 + 32
+        _ => Header::Method(Method::OPTIONS),     // 7 + 7 + 32
+    }
+}
+
+pub(crate) fn entry_size(k: usize) -> usize {
+    42 + k
+}
+
+const FILL: &str = "aaaaaaaaaaaaaaaaaaaaaaaaaaaaaaaaaaaaaaaaaaaaaaaaaaaaaaaaaaaaaaaaaaaaaaaaaaaaaaaaaaaaaaaaaaaaaaaaaaaa\
+aaaaaaaaaaaaaaaaaaaaaaaaaaaaaaaaaaaaaaaaaaaaaaaaaaaaaaaaaaaaaaaaaaaaaaaaaaaaaaaaaaaaaaaaaaaaaaaaaaaa";
+pub(crate) const MAX_BIG_K: usize = 200;
+
+/// An `:authority` entry whose value is `k <= 200` octets long: size = 10 + k + 32.  Loop-free (no
+/// validation runs on `from_static`), so `k` may be symbolic; expensive to drop (thorough tier only).
+pub(crate) fn mk_big_entry(k: usize) -> Header {
+    Header::Authority(BytesStr::from_static(&FILL[..k]))
+}
+
+pub(crate) fn big_entry_size(k: usize) -> usize {
+    10 + k + 32
+}
+
+pub(crate) const CAP: usize = 3;
+
+/// §4: the table as the list of its entry sizes, newest first.
+#[derive(Clone, Copy)]
+pub(crate) struct RefTable {
+    pub lens: [usize; CAP + 1],
+    pub n: usize,
+    pub max: usize,
+}
+
+impl RefTable {
+    pub(crate) fn size(&self) -> usize {
+        let mut s = 0;
+        let mut i = 0;
+        while i < self.n {
+            s += self.lens[i];
+            i += 1;
+        }
+        s
+    }
+    /// §4.3: evict from the end until size <= max
+    pub(crate) fn set_max(&mut self, m: usize) {
+        self.max = m;
+        while self.size() > self.max {
+            self.n -= 1;
+        }
+    }
+    /// §4.4: evict until size <= max - new (or empty); add if it fits.  Requires n < CAP + 1 afterwards.
+    pub(crate) fn insert(&mut self, l: usize) {
+        while self.n > 0 && self.size() + l > self.max {
+            self.n -= 1;
+        }
+        if l <= self.max {
+            let mut i = self.n;
+            while i > 0 {
+                self.lens[i] = self.lens[i - 1];
+                i -= 1;
+            }
+            self.lens[0] = l;
+            self.n += 1;
+        }
+    }
+}
+
+/// Builds the real table for the model `r` whose entry count `r.n` is a *concrete* number at every call
+/// site (the harnesses dispatch over 0..=CAP): the VecDeque then has a concrete shape.
+pub(crate) fn mk_table(r: &RefTable, ks: &[usize; CAP]) -> Table {
+    let mut entries = VecDeque::with_capacity(CAP + 1);
+    let mut i = 0;
+    while i < r.n {
+        entries.push_back(mk_entry(ks[i]));
+        i += 1;
+    }
+    Table {
+        entries,
+        size: r.size(),
+        max_size: r.max,
+    }
+}
+
+/// Any well-formed decoder table with exactly `n <= CAP` entries (sizes 42..=46) and any limit that the
+/// call sites can produce: `Decoder::new(4096)` and `queue_size_update(u32 as usize)` bound max_size by
+/// u32::MAX; I-tab: `size == sum of entry sizes <= max_size`.
+#[cfg(kani)]
+pub(crate) fn any_table_n(n: usize) -> (Table, RefTable) {
+    let mut r = RefTable {
+        lens: [0; CAP + 1],
+        n,
+        max: kani::any(),
+    };
+    let mut ks = [0usize; CAP];
+    let mut i = 0;
+    while i < n {
+        let k: usize = kani::any();
+        kani::assume(k <= MAX_K);
+        ks[i] = k;
+        r.lens[i] = entry_size(k);
+        i += 1;
+    }
+    kani::assume(r.max <= u32::MAX as usize);
+    kani::assume(r.size() <= r.max);
+    (mk_table(&r, &ks), r)
+}
+
+/// real table == model: same number of entries, same sizes in the same order, same accounting
+pub(crate) fn table_matches(t: &Table, r: &RefTable) -> bool {
+    if t.entries.len() != r.n || t.max_size != r.max {
+        return false;
+    }
+    let mut sum = 0;
+    let mut i = 0;
+    while i < r.n {
+        let l = match t.entries.get(i) {
+            Some(h) => h.len(),
+            None => return false,
+        };
+        if l != r.lens[i] {
+            return false;
+        }
+        sum += l;
+        i += 1;
+    }
+    t.size == sum
+}
+
+// ------------------------------------------------------------------ block model (§4.2, §6.1, §6.3)
+
+/// outcome classes of decoding a header block
+pub(crate) const B_OK: u8 = 0;
+pub(crate) const B_NEED_MORE: u8 = 1;
+pub(crate) const B_BAD_SIZE_UPDATE: u8 = 2;
+pub(crate) const B_BAD_INDEX: u8 = 3;
+pub(crate) const B_INT_LIMIT: u8 = 4;
+pub(crate) const B_OUT_OF_SCOPE: u8 = 9;
+pub(crate) const B_OTHER: u8 = 8;
+
+pub(crate) struct RefBlock {
+    pub class: u8,
+    /// fields emitted before the outcome
+    pub fields: usize,
+    /// offset of the first octet that is not part of a completely decoded representation
+    pub pos: usize,
+}
+
+/// RFC 7541 decoding of `bytes[..n]` restricted to indexed fields and size updates.
+/// `limit` is the §6.3 protocol limit (last acknowledged SETTINGS_HEADER_TABLE_SIZE);
+/// `seen_field`: a field representation of this block has already been decoded (§4.2: an update is
+/// only legal at the beginning of a block).
+pub(crate) fn rfc_block(bytes: &[u8], n: usize, limit: usize, t: &mut RefTable, mut seen_field: bool) -> RefBlock {
+    let mut pos = 0;
+    let mut fields = 0;
+    while pos < n {
+        let b = bytes[pos];
+        let kind = rfc_representation(b);
+        if kind == 0 {
+            match rfc_decode_int(&bytes[pos..], n - pos, 7) {
+                RefInt::NeedMore => {
+                    let class = if n - pos > MAX_CONT_OCTETS { B_INT_LIMIT } else { B_NEED_MORE };
+                    return RefBlock { class, fields, pos };
+                }
+                RefInt::Value(v, c) => {
+                    if c > 1 + MAX_CONT_OCTETS {
+                        return RefBlock { class: B_INT_LIMIT, fields, pos };
+                    }
+                    // §2.3.3: 1..=61 static, 62.. dynamic; §6.1: 0 is a decoding error
+                    if v == 0 || v > 61 + t.n as u64 {
+                        return RefBlock { class: B_BAD_INDEX, fields, pos };
+                    }
+                    fields += 1;
+                    seen_field = true;
+                    pos += c;
+                }
+            }
+        } else if kind == 4 {
+            if seen_field {
+                return RefBlock { class: B_BAD_SIZE_UPDATE, fields, pos };
+            }
+            match rfc_decode_int(&bytes[pos..], n - pos, 5) {
+                RefInt::NeedMore => {
+                    let class = if n - pos > MAX_CONT_OCTETS { B_INT_LIMIT } else { B_NEED_MORE };
+                    return RefBlock { class, fields, pos };
+                }
+                RefInt::Value(v, c) => {
+                    if c > 1 + MAX_CONT_OCTETS {
+                        return RefBlock { class: B_INT_LIMIT, fields, pos };
+                    }
+                    if v > limit as u64 {
+                        return RefBlock { class: B_BAD_SIZE_UPDATE, fields, pos };
+                    }
+                    t.set_max(v as usize);
+                    pos += c;
+                }
+            }
+        } else {
+            return RefBlock { class: B_OUT_OF_SCOPE, fields, pos };
+        }
+    }
+    RefBlock { class: B_OK, fields, pos }
+}
+
+pub(crate) fn class_of(r: &Result<(), DecoderError>) -> u8 {
+    match r {
+        Ok(()) => B_OK,
+        Err(DecoderError::NeedMore(_)) => B_NEED_MORE,
+        Err(DecoderError::InvalidMaxDynamicSize) => B_BAD_SIZE_UPDATE,
+        Err(DecoderError::InvalidTableIndex) => B_BAD_INDEX,
+        Err(DecoderError::IntegerOverflow) => B_INT_LIMIT,
+        Err(_) => B_OTHER,
+    }
+}
+
+pub(crate) fn mk_decoder(table: Table, last_ack: usize, queued: Option<usize>) -> Decoder {
+    Decoder {
+        max_size_update: queued,
+        last_max_update: last_ack,
+        table,
+        buffer: BytesMut::new(),
+    }
+}
+
+// ------------------------------------------------------------------ Appendix A
+
+pub(crate) const RFC_STATIC: [(&str, &str); 61] = [
+    (":authority", ""),
+    (":method", "GET"),
+    (":method", "POST"),
+    (":path", "/"),
+    (":path", "/index.html"),
+    (":scheme", "http"),
+    (":scheme", "https"),
+    (":status", "200"),
+    (":status", "204"),
+    (":status", "206"),
+    (":status", "304"),
+    (":status", "400"),
+    (":status", "404"),
+    (":status", "500"),
+    ("accept-charset", ""),
+    ("accept-encoding", "gzip, deflate"),
+    ("accept-language", ""),
+    ("accept-ranges", ""),
+    ("accept", ""),
+    ("access-control-allow-origin", ""),
+    ("age", ""),
+    ("allow", ""),
+    ("authorization", ""),
+    ("cache-control", ""),
+    ("content-disposition", ""),
+    ("content-encoding", ""),
+    ("content-language", ""),
+    ("content-length", ""),
+    ("content-location", ""),
+    ("content-range", ""),
+    ("content-type", ""),
+    ("cookie", ""),
+    ("date", ""),
+    ("etag", ""),
+    ("expect", ""),
+    ("expires", ""),
+    ("from", ""),
+    ("host", ""),
+    ("if-match", ""),
+    ("if-modified-since", ""),
+    ("if-none-match", ""),
+    ("if-range", ""),
+    ("if-unmodified-since", ""),
+    ("last-modified", ""),
+    ("link", ""),
+    ("location", ""),
+    ("max-forwards", ""),
+    ("proxy-authenticate", ""),
+    ("proxy-authorization", ""),
+    ("range", ""),
+    ("referer", ""),
+    ("refresh", ""),
+    ("retry-after", ""),
+    ("server", ""),
+    ("set-cookie", ""),
+    ("strict-transport-security", ""),
+    ("transfer-encoding", ""),
+    ("user-agent", ""),
+    ("vary", ""),
+    ("via", ""),
+    ("www-authenticate", ""),
+];
+
+pub(crate) fn bytes_eq(a: &[u8], b: &[u8]) -> bool {
+    if a.len() != b.len() {
+        return false;
+    }
+    let mut i = 0;
+    while i < a.len() {
+        if a[i] != b[i] {
+            return false;
+        }
+        i += 1;
+    }
+    true
+}
+
+#[cfg(kani)]
+mod proofs {
+    use super::*;
+
+    // RFC 7541 §5.1.  Every prefix size, every octet string of <= 6 octets (prefix + 5 continuation
+    // octets: one more than the implementation limit, so that the limit itself is exercised).
+    // Complete: the only loop is bounded by MAX_BYTES = 5 (operand-width bound), independent of the input.
+    // @harness id=hpack_dec_decode_int props=C11,C10 kind=complete tier=quick fn=decode_int
+    #[kani::proof]
+    #[kani::unwind(8)]
+    fn hpack_dec_decode_int() {
+        let bytes: [u8; 6] = kani::any();
+        let n: usize = kani::any();
+        kani::assume(n <= 6);
+        let p: u8 = kani::any();
+        // requires: 1 <= p <= 8; the four call sites pass the literals 4, 5, 6, 7
+        kani::assume(1 <= p && p <= 8);
+        let mut buf: &[u8] = &bytes[..n];
+        let r = decode_int(&mut buf, p);
+        let consumed = n - buf.len();
+        let spec = rfc_decode_int(&bytes, n, p);
+        let (spec_done, spec_v, spec_c) = match spec {
+            RefInt::Value(v, c) => (true, v, c),
+            RefInt::NeedMore => (false, 0, 0),
+        };
+
+        // the encoding is longer than h2's limit: a full prefix and MAX_CONT_OCTETS flagged octets
+        let full = if p == 8 { 0xffu8 } else { (1u8 << p) - 1 };
+        let over_limit = n >= 1 + MAX_CONT_OCTETS
+            && bytes[0] & full == full
+            && bytes[1] & 128 != 0
+            && bytes[2] & 128 != 0
+            && bytes[3] & 128 != 0
+            && bytes[4] & 128 != 0;
+
+        let is_need_more = r == Err(DecoderError::NeedMore(NeedMore::IntegerUnderflow));
+        let is_overflow = r == Err(DecoderError::IntegerOverflow);
+        assert!(r.is_ok() || is_need_more || is_overflow, "hpack.decode_int.no_other_error");
+        if let Ok(v) = r {
+            assert!(spec_done, "hpack.decode_int.ok_only_if_terminated");
+            assert!(v as u64 == spec_v, "hpack.decode_int.ok_value_is_rfc_value");
+            assert!(consumed == spec_c, "hpack.decode_int.ok_consumes_exactly_the_encoding");
+            assert!(v as u64 <= u32::MAX as u64, "hpack.decode_int.ok_fits_32_bits_no_wrap");
+        }
+        if is_need_more {
+            assert!(!spec_done, "hpack.decode_int.need_more_only_if_unterminated");
+            assert!(consumed == n, "hpack.decode_int.need_more_read_everything");
+        }
+        // §5.1: "Integer encodings that exceed implementation limits -- in value or octet length -- MUST
+        // be treated as decoding errors."  Exactly the over-long encodings, nothing shorter.
+        assert!(is_overflow == over_limit, "hpack.decode_int.overflow_iff_past_the_octet_limit");
+        // completeness of acceptance: every terminated encoding within the limit is accepted
+        assert!(r.is_ok() == (spec_done && spec_c <= 1 + MAX_CONT_OCTETS), "hpack.decode_int.accepts_iff_terminated_within_limit");
+
+        kani::cover!(matches!(r, Ok(v) if v > 255 + (1 << 21)) && p == 8, "cover.four_continuation_octets_prefix_8");
+        kani::cover!(matches!(r, Ok(v) if v == 1) && p == 1 && consumed == 2, "cover.prefix_1_multi");
+        kani::cover!(is_overflow && spec_done, "cover.overflow_of_a_terminated_6_octet_encoding");
+        kani::cover!(is_need_more && n == 3, "cover.need_more_mid_int");
+    }
+
+    // Defensive arm: an out-of-range prefix size is refused and nothing is consumed.
+    // @harness id=hpack_dec_decode_int_bad_prefix props=C11 kind=complete tier=quick fn=decode_int
+    #[kani::proof]
+    #[kani::unwind(8)]
+    fn hpack_dec_decode_int_bad_prefix() {
+        let bytes: [u8; 3] = kani::any();
+        let p: u8 = kani::any();
+        kani::assume(p == 0 || p > 8);
+        let mut buf: &[u8] = &bytes[..];
+        let r = decode_int(&mut buf, p);
+        assert!(r == Err(DecoderError::InvalidIntegerPrefix), "hpack.decode_int.bad_prefix_refused");
+        assert!(buf.len() == 3, "hpack.decode_int.bad_prefix_consumes_nothing");
+        kani::cover!(p == 0, "cover.zero");
+        kani::cover!(p == 9, "cover.nine");
+    }
+
+    // RFC 7541 §6: all 256 first octets.
+    // @harness id=hpack_dec_representation_load props=C11 kind=complete tier=quick fn=Representation::load
+    #[kani::proof]
+    fn hpack_dec_representation_load() {
+        let b: u8 = kani::any();
+        let r = Representation::load(b);
+        // the five patterns of §6 partition the octet space
+        assert!(r.is_ok(), "hpack.representation.every_octet_is_a_representation");
+        let code = match r {
+            Ok(ref k) => repr_code(k),
+            Err(_) => 99,
+        };
+        assert!(code == rfc_representation(b), "hpack.representation.matches_rfc_section_6");
+        kani::cover!(matches!(r, Ok(Representation::LiteralWithoutIndexing)), "cover.literal_without");
+        kani::cover!(matches!(r, Ok(Representation::LiteralNeverIndexed)), "cover.literal_never");
+        kani::cover!(matches!(r, Ok(Representation::SizeUpdate)), "cover.size_update");
+    }
+
+    // RFC 7541 §4.4 entry addition on any well-formed table with <= 2 entries of symbolic sizes.
+    // Quick tier: the accounting fields (`size`, number of entries, `max_size`) against the §4.4 model;
+    // with symbolic entry sizes a wrong eviction order or count changes `size`.  That `size` is also the
+    // sum over the entries actually stored is re-read in the thorough twin below (reading entries back
+    // after `push_front` costs CBMC minutes: the never-taken VecDeque::grow path is explored).
+    // @harness id=hpack_dec_table_insert props=C11 kind=bounded bound=entries<=1 tier=quick fn=Table::insert,Table::reserve
+    #[kani::proof]
+    #[kani::unwind(4)]
+    fn hpack_dec_table_insert() {
+        let body = |n0: usize| {
+            let (mut t, r0) = any_table_n(n0);
+            let k: usize = kani::any();
+            kani::assume(k <= MAX_K);
+            let l = entry_size(k);
+            t.insert(mk_entry(k));
+
+            let mut r = r0;
+            r.insert(l);
+            let len = t.entries.len();
+            assert!(t.size == r.size(), "hpack.dec_table.insert.size_is_rfc_4_4");
+            assert!(len == r.n, "hpack.dec_table.insert.entry_count_is_rfc_4_4");
+            assert!(t.max_size == r0.max, "hpack.dec_table.insert.max_unchanged");
+            // the same, spelled out
+            assert!(t.size <= t.max_size, "hpack.dec_table.insert.size_le_max");
+            assert!((l > r0.max) == (len == 0), "hpack.dec_table.insert.empty_iff_oversize_entry");
+            assert!(len <= r0.n + 1, "hpack.dec_table.insert.adds_one_and_only_evicts");
+            // minimal eviction, oldest first: what stays is the new entry plus the newest old ones, and
+            // one more old entry would not have fitted
+            let kept = if len == 0 { 0 } else { len - 1 };
+            let kept_sum = if kept == 0 { 0 } else if kept == 1 { r0.lens[0] } else { r0.lens[0] + r0.lens[1] };
+            assert!(len == 0 || t.size == l + kept_sum, "hpack.dec_table.insert.keeps_the_newest_entries");
+            assert!(len == 0 || kept >= r0.n || l + kept_sum + r0.lens[kept] > r0.max, "hpack.dec_table.insert.evicts_no_more_than_needed");
+            kani::cover!(l > r0.max && r0.n == 1, "cover.oversize_empties_table");
+            kani::cover!(l <= r0.max && r0.n == 1 && len == 1, "cover.evicts_the_old_entry");
+            kani::cover!(r0.n == 1 && len == 2 && t.size == t.max_size, "cover.exact_fit_without_eviction");
+            std::mem::forget(t);
+        };
+        if kani::any() {
+            body(0)
+        } else {
+            body(1)
+        }
+    }
+
+    // The same contract on a table with exactly 2 entries (an oversize entry cannot occur here: the
+    // cheap entries are <= 46 octets; see hpack_dec_table_insert_oversize).
+    // @harness id=hpack_dec_table_insert_2 props=C11 kind=bounded bound=entries==2 tier=quick fn=Table::insert,Table::reserve
+    #[kani::proof]
+    #[kani::unwind(4)]
+    fn hpack_dec_table_insert_2() {
+        let body = |n0: usize| {
+            let (mut t, r0) = any_table_n(n0);
+            let k: usize = kani::any();
+            kani::assume(k <= MAX_K);
+            let l = entry_size(k);
+            t.insert(mk_entry(k));
+
+            let mut r = r0;
+            r.insert(l);
+            let len = t.entries.len();
+            assert!(t.size == r.size(), "hpack.dec_table.insert2.size_is_rfc_4_4");
+            assert!(len == r.n, "hpack.dec_table.insert2.entry_count_is_rfc_4_4");
+            assert!(t.max_size == r0.max, "hpack.dec_table.insert2.max_unchanged");
+            // the same, spelled out
+            assert!(t.size <= t.max_size, "hpack.dec_table.insert2.size_le_max");
+            assert!((l > r0.max) == (len == 0), "hpack.dec_table.insert2.empty_iff_oversize_entry");
+            assert!(len <= r0.n + 1, "hpack.dec_table.insert2.adds_one_and_only_evicts");
+            // minimal eviction, oldest first: what stays is the new entry plus the newest old ones, and
+            // one more old entry would not have fitted
+            let kept = if len == 0 { 0 } else { len - 1 };
+            let kept_sum = if kept == 0 { 0 } else if kept == 1 { r0.lens[0] } else { r0.lens[0] + r0.lens[1] };
+            assert!(len == 0 || t.size == l + kept_sum, "hpack.dec_table.insert2.keeps_the_newest_entries");
+            assert!(len == 0 || kept >= r0.n || l + kept_sum + r0.lens[kept] > r0.max, "hpack.dec_table.insert2.evicts_no_more_than_needed");
+            kani::cover!(l <= r0.max && len == 1, "cover.evicts_both");
+            kani::cover!(l <= r0.max && r0.n == 2 && len == 2, "cover.evicts_one_of_two");
+            kani::cover!(r0.n == 2 && len == 3 && t.size == t.max_size, "cover.exact_fit_without_eviction");
+            std::mem::forget(t);
+        };
+        body(2);
+    }
+
+    // Thorough twin: 2 or 3 entries, and the stored entries are read back (sizes, order, sum).
+    // @harness id=hpack_dec_table_insert_deep props=C11 kind=bounded bound=entries<=3 tier=thorough timeout=1500 fn=Table::insert,Table::reserve
+    #[kani::proof]
+    #[kani::unwind(5)]
+    fn hpack_dec_table_insert_deep() {
+        let body = |n0: usize| {
+            let (mut t, r0) = any_table_n(n0);
+            let k: usize = kani::any();
+            kani::assume(k <= MAX_K);
+            let l = entry_size(k);
+            t.insert(mk_entry(k));
+            let mut r = r0;
+            r.insert(l);
+            assert!(table_matches(&t, &r), "hpack.dec_table.insert_deep.matches_rfc_4_4");
+            assert!(t.size <= t.max_size && t.max_size == r0.max, "hpack.dec_table.insert_deep.size_le_max");
+            let len = t.entries.len();
+            assert!((l > r0.max) == (len == 0), "hpack.dec_table.insert_deep.empty_iff_oversize_entry");
+            kani::cover!(r0.n == 3 && l <= r0.max && len == 2, "cover.evicts_two_of_three");
+            kani::cover!(r0.n == 3 && len == 4, "cover.no_eviction");
+            std::mem::forget(t);
+        };
+        if kani::any() {
+            body(2)
+        } else {
+            body(3)
+        }
+    }
+
+    // §4.4 last paragraph: "an attempt to add an entry larger than the maximum size causes the table to
+    // be emptied of all existing entries and results in an empty table" — 2 existing entries, the new
+    // entry is an `:authority` of symbolic size 42..=242.
+    // @harness id=hpack_dec_table_insert_oversize props=C11 kind=bounded bound=entries==2 tier=thorough timeout=1500 fn=Table::insert,Table::reserve
+    #[kani::proof]
+    #[kani::unwind(4)]
+    fn hpack_dec_table_insert_oversize() {
+        let (mut t, r0) = any_table_n(2);
+        let k: usize = kani::any();
+        kani::assume(k <= MAX_BIG_K);
+        let l = big_entry_size(k);
+        t.insert(mk_big_entry(k));
+        let mut r = r0;
+        r.insert(l);
+        let len = t.entries.len();
+        assert!(t.size == r.size() && len == r.n, "hpack.dec_table.insert_oversize.matches_rfc_4_4");
+        assert!(t.size <= t.max_size && t.max_size == r0.max, "hpack.dec_table.insert_oversize.size_le_max");
+        assert!((l > r0.max) == (len == 0), "hpack.dec_table.insert_oversize.empty_iff_oversize_entry");
+        assert!(l <= r0.max || t.size == 0, "hpack.dec_table.insert_oversize.oversize_entry_empties_table");
+        kani::cover!(l > r0.max, "cover.oversize_empties_table_of_two");
+        kani::cover!(l <= r0.max && len == 1, "cover.big_entry_evicts_both");
+        std::mem::forget(t);
+    }
+
+    // RFC 7541 §4.3 / §6.3 maximum size change on any well-formed table with <= 3 entries of symbolic
+    // sizes.  The `panic!` in consolidate is an implicit obligation.  Quick tier: accounting fields vs the
+    // model; the thorough twin re-reads the entries.
+    // @harness id=hpack_dec_table_set_max_size props=C11 kind=bounded bound=entries<=3 tier=quick fn=Table::set_max_size,Table::consolidate,Table::size
+    #[kani::proof]
+    #[kani::unwind(5)]
+    fn hpack_dec_table_set_max_size() {
+        let body = |n0: usize| {
+            let (mut t, r0) = any_table_n(n0);
+            let m: usize = kani::any();
+            // requires m <= u32::MAX: process_size_update passes a decode_int result (fits 32 bits, above)
+            kani::assume(m <= u32::MAX as usize);
+            t.set_max_size(m);
+            let mut r = r0;
+            r.set_max(m);
+            let kept = t.entries.len();
+            assert!(t.size == r.size(), "hpack.dec_table.set_max_size.size_is_rfc_4_3");
+            assert!(kept == r.n, "hpack.dec_table.set_max_size.entry_count_is_rfc_4_3");
+            assert!(t.max_size == m, "hpack.dec_table.set_max_size.max_is_new_value");
+            assert!(t.size <= m, "hpack.dec_table.set_max_size.size_le_max");
+            assert!(t.size() == t.size, "hpack.dec_table.size.is_field");
+            assert!(kept <= r0.n, "hpack.dec_table.set_max_size.only_evicts");
+            // oldest first, and no more than needed
+            let kept_sum = if kept == 0 {
+                0
+            } else if kept == 1 {
+                r0.lens[0]
+            } else if kept == 2 {
+                r0.lens[0] + r0.lens[1]
+            } else {
+                r0.lens[0] + r0.lens[1] + r0.lens[2]
+            };
+            assert!(t.size == kept_sum, "hpack.dec_table.set_max_size.keeps_the_newest_entries");
+            assert!(kept >= r0.n || kept_sum + r0.lens[kept] > m, "hpack.dec_table.set_max_size.evicts_no_more_than_needed");
+            assert!(m != 0 || kept == 0, "hpack.dec_table.set_max_size.zero_clears");
+            kani::cover!(r0.n == 3 && kept == 3 && m < r0.max, "cover.shrink_without_eviction");
+            kani::cover!(r0.n == 3 && kept == 1 && t.size == m, "cover.evicts_two_exact_fit");
+            kani::cover!(r0.n == 2 && kept == 0 && m > 0, "cover.evicts_all_nonzero");
+            std::mem::forget(t);
+        };
+        let n: usize = kani::any();
+        kani::assume(n <= 3);
+        match n {
+            0 => body(0),
+            1 => body(1),
+            2 => body(2),
+            _ => body(3),
+        }
+    }
+
+    // Thorough twin: the stored entries are read back (sizes, order, sum).
+    // @harness id=hpack_dec_table_set_max_size_deep props=C11 kind=bounded bound=entries<=3 tier=thorough timeout=1500 fn=Table::set_max_size,Table::consolidate
+    #[kani::proof]
+    #[kani::unwind(5)]
+    fn hpack_dec_table_set_max_size_deep() {
+        let body = |n0: usize| {
+            let (mut t, r0) = any_table_n(n0);
+            let m: usize = kani::any();
+            kani::assume(m <= u32::MAX as usize);
+            t.set_max_size(m);
+            let mut r = r0;
+            r.set_max(m);
+            assert!(table_matches(&t, &r), "hpack.dec_table.set_max_size_deep.matches_rfc_4_3");
+            assert!(t.max_size == m && t.size <= m, "hpack.dec_table.set_max_size_deep.size_le_max");
+            let kept = t.entries.len();
+            kani::cover!(r0.n == 3 && kept == 1, "cover.evicts_two_of_three");
+            kani::cover!(r0.n == 3 && kept == 3 && m < r0.max, "cover.shrink_without_eviction");
+            std::mem::forget(t);
+        };
+        if kani::any() {
+            body(2)
+        } else {
+            body(3)
+        }
+    }
+
+    // RFC 7541 §2.3.3 index address space, §6.1: index 0 and indices past the end are decoding errors.
+    // Any index (full usize) into a table with exactly 2 entries (one shape: the 61-arm static match is
+    // explored once).
+    // @harness id=hpack_dec_table_get props=C11 kind=bounded bound=entries==2 tier=quick fn=Table::get
+    #[kani::proof]
+    #[kani::unwind(16)]
+    fn hpack_dec_table_get() {
+        let (t, r0) = any_table_n(2);
+        let index: usize = kani::any();
+        let r = t.get(index);
+        let bad_index = matches!(r, Err(DecoderError::InvalidTableIndex));
+        let got = match r {
+            Ok(ref h) => h.len(),
+            Err(_) => 0,
+        };
+        let dynamic = index >= 62 && index - 62 < r0.n;
+        assert!(index != 0 || bad_index, "hpack.dec_table.get.zero_is_error");
+        assert!(!(1 <= index && index <= 61) || r.is_ok(), "hpack.dec_table.get.static_ok");
+        assert!(!dynamic || got == r0.lens[if dynamic { index - 62 } else { 0 }], "hpack.dec_table.get.dynamic_newest_first");
+        assert!(!(index >= 62 && !dynamic) || bad_index, "hpack.dec_table.get.past_end_is_error");
+        assert!(r.is_ok() || bad_index, "hpack.dec_table.get.no_other_error");
+        // the table is not modified
+        assert!(table_matches(&t, &r0), "hpack.dec_table.get.table_unchanged");
+        kani::cover!(index == 63 && r.is_ok(), "cover.oldest_of_two");
+        kani::cover!(index == 64 && r.is_err(), "cover.first_past_end");
+        kani::cover!(index == usize::MAX, "cover.huge_index");
+        kani::cover!(index == 16 && got == 32 + 15 + 13, "cover.static_16");
+        std::mem::forget(r);
+        std::mem::forget(t);
+    }
+
+    // RFC 7541 Appendix A: every index 1..=61 (symbolic) yields exactly the name and value of the RFC.
+    // Complete: the comparison loops are bounded by the longest name (27 octets) < 30.
+    // @harness id=hpack_dec_static_table props=C11,C10 kind=complete tier=quick fn=get_static
+    #[kani::proof]
+    #[kani::unwind(30)]
+    fn hpack_dec_static_table() {
+        let i: usize = kani::any();
+        // requires 1 <= idx <= 61: the only caller is Table::get, after `index == 0` / `index <= 61`
+        kani::assume(1 <= i && i <= 61);
+        let h = get_static(i);
+        let (name, value) = RFC_STATIC[i - 1];
+        assert!(bytes_eq(h.name().as_slice(), name.as_bytes()), "hpack.static_table.name_is_appendix_a");
+        assert!(bytes_eq(h.value_slice(), value.as_bytes()), "hpack.static_table.value_is_appendix_a");
+        assert!(h.len() == name.len() + value.len() + 32, "hpack.static_table.size_is_rfc_4_1");
+        kani::cover!(i == 16, "cover.accept_encoding_gzip_deflate");
+        kani::cover!(i == 61, "cover.last");
+        std::mem::forget(h);
+    }
+
+    // §6.3 on the real `process_size_update`: the value is an RFC integer with a 5-bit prefix; above
+    // the acknowledged limit it is a decoding error and the table is untouched; otherwise §4.3.
+    // @harness id=hpack_dec_process_size_update props=C11 kind=bounded bound=entries<=1,input<=4B tier=quick fn=Decoder::process_size_update
+    #[kani::proof]
+    #[kani::unwind(8)]
+    fn hpack_dec_process_size_update() {
+        let body = |n0: usize| {
+            let (t, r0) = any_table_n(n0);
+            let limit: usize = kani::any();
+            kani::assume(limit <= u32::MAX as usize);
+            let mut de = mk_decoder(t, limit, None);
+            let bytes: [u8; 4] = kani::any();
+            let n: usize = kani::any();
+            kani::assume(1 <= n && n <= 4);
+            // requires: called on a size update representation (`decode` dispatches on Representation::load)
+            kani::assume(rfc_representation(bytes[0]) == 4);
+            let mut src = BytesMut::from(&bytes[..n]);
+            let mut cur = Cursor::new(&mut src);
+            let r = de.process_size_update(&mut cur);
+            let consumed = cur.position() as usize;
+            let (done, v, c) = match rfc_decode_int(&bytes, n, 5) {
+                RefInt::Value(v, c) => (true, v, c),
+                RefInt::NeedMore => (false, 0, 0),
+            };
+            let mut m = r0;
+            if done && v <= limit as u64 {
+                m.set_max(v as usize);
+            }
+            let above = done && v > limit as u64;
+            assert!(!above || r == Err(DecoderError::InvalidMaxDynamicSize), "hpack.size_update.above_limit_is_error");
+            assert!(done || matches!(r, Err(DecoderError::NeedMore(_))), "hpack.size_update.truncated_is_need_more");
+            assert!((r == Ok(())) == (done && !above), "hpack.size_update.ok_iff_complete_and_within_limit");
+            assert!(r.is_err() || consumed == c, "hpack.size_update.consumes_the_integer");
+            // Ok: §4.3 applied; Err: table untouched (m == r0 then)
+            assert!(table_matches(&de.table, &m), "hpack.size_update.table_is_rfc_4_3_or_untouched");
+            assert!(r.is_err() || (de.table.size <= de.table.max_size && de.table.max_size <= limit), "hpack.size_update.table_within_limit");
+            assert!(de.last_max_update == limit, "hpack.size_update.limit_unchanged");
+            kani::cover!(r == Ok(()) && de.table.entries.len() < r0.n && consumed == 3, "cover.multi_octet_update_evicts");
+            kani::cover!(r == Err(DecoderError::InvalidMaxDynamicSize), "cover.above_limit");
+            kani::cover!(matches!(r, Err(DecoderError::NeedMore(_))), "cover.need_more");
+            std::mem::forget(de);
+            std::mem::forget(src);
+        };
+        if kani::any() {
+            body(0)
+        } else {
+            body(1)
+        }
+    }
+
+    // §6.3 "this limit is the last value of SETTINGS_HEADER_TABLE_SIZE received from the decoder and
+    // acknowledged by the encoder".  `queue_size_update(v)` is called once per acknowledged SETTINGS frame
+    // that carries the parameter (proto/settings.rs, Local::WaitingAck arm); `decode` moves the queued value
+    // into `last_max_update`, the limit that `process_size_update` enforces (harness above).
+    //
+    // Precondition (I-single-table-size, from the call sites): nothing is queued yet.  h2 sends
+    // SETTINGS_HEADER_TABLE_SIZE only in its initial SETTINGS frame (client/server `Builder::header_table_size`;
+    // `Connection::set_initial_window_size` / `enable_connect_protocol` send frames without it), so at most one
+    // acknowledgement per connection carries the parameter.  An earlier version of this contract queued two values
+    // back to back and demanded "the last one wins"; `queue_size_update` keeps the larger one, which is a deviation
+    // from RFC 7541 6.3 only in a history the library cannot produce — that was a false alarm of the check, not a
+    // defect of h2 (see DESIGN.md, false alarms).
+    // @harness id=hpack_dec_queue_size_update props=C11 kind=complete tier=quick fn=Decoder::queue_size_update
+    #[kani::proof]
+    fn hpack_dec_queue_size_update() {
+        let (t, _r0) = any_table_n(0);
+        let last: usize = kani::any();
+        let mut de = mk_decoder(t, last, None);
+        let a: u32 = kani::any();
+        de.queue_size_update(a as usize);
+        assert!(de.max_size_update == Some(a as usize), "hpack.queue_size_update.acknowledged_value_is_queued");
+        assert!(de.last_max_update == last && de.table.max_size == _r0.max, "hpack.queue_size_update.nothing_else_changes");
+        kani::cover!(a == 0, "cover.zero");
+        kani::cover!(a > 4096, "cover.raised");
+        std::mem::forget(de);
+    }
+
+    // `decode` on an empty block (a HEADERS frame with an empty fragment): the queued acknowledged limit
+    // becomes the limit in force, nothing is emitted, the table is untouched.
+    // (The block-level rules of §4.2 — size update only before the first field, also across a
+    // HEADERS/CONTINUATION boundary — could NOT be harnessed: `decode` on a non-empty `Cursor<&mut BytesMut>`
+    // does not finish symbolic execution within 25 minutes even for 1 octet, with `decode_literal` and
+    // `take` stubbed; see the report.)
+    // @harness id=hpack_dec_decode_empty_block props=C11 kind=complete tier=quick fn=Decoder::decode
+    #[kani::proof]
+    #[kani::unwind(2)]
+    fn hpack_dec_decode_empty_block() {
+        let (t, r0) = any_table_n(0);
+        let last: usize = kani::any();
+        let queued: Option<usize> = kani::any();
+        let mut de = mk_decoder(t, last, queued);
+        let mut src = BytesMut::new();
+        let mut fields = 0usize;
+        let r = de.decode(&mut Cursor::new(&mut src), |h| {
+            fields += 1;
+            std::mem::forget(h);
+            ControlFlow::Continue(())
+        });
+        let limit = match queued {
+            Some(q) => q,
+            None => last,
+        };
+        assert!(r == Ok(()) && fields == 0, "hpack.decode_empty.ok_and_emits_nothing");
+        assert!(de.last_max_update == limit && de.max_size_update.is_none(), "hpack.decode_empty.queued_limit_takes_effect");
+        assert!(de.table.max_size == r0.max && de.table.size == 0, "hpack.decode_empty.table_untouched");
+        kani::cover!(queued.is_some() && limit < last, "cover.limit_lowered");
+        kani::cover!(queued.is_none(), "cover.nothing_queued");
+        std::mem::forget(de);
+        std::mem::forget(src);
+    }
+}
